@@ -481,6 +481,71 @@ func runC07(args []string) error {
 			sum.DistinctNontrivial++
 		}
 	}
+	// length prefixes placed around the block boundaries of the compressed file format (the snappy framing cuts the
+	// uncompressed stream into blocks of 65528 bytes): a prefix that straddles a block is delivered by two short reads
+	for _, boundary := range []int{65528, 2 * 65528} {
+		for off := boundary - 12; off <= boundary+4; off++ {
+			first := make([]byte, off-8-(boundary-65528)) // the second record's prefix starts at offset off
+			if boundary > 65528 {
+				first = make([]byte, off-8)
+			}
+			for j := range first {
+				first[j] = byte(r.Intn(256))
+			}
+			msgs := [][]byte{first}
+			for i := 0; i < 5; i++ {
+				m := make([]byte, 90+r.Intn(30))
+				for j := range m {
+					m[j] = byte(r.Intn(256))
+				}
+				msgs = append(msgs, m)
+			}
+			sf, err := snapshot.NewTemp()
+			if err != nil {
+				return err
+			}
+			for _, m := range msgs {
+				if _, err := sf.Write(m); err != nil {
+					return err
+				}
+			}
+			if err := sf.Sync(); err != nil {
+				return err
+			}
+			_, _ = sf.Seek(0, io.SeekStart)
+			var got [][]byte
+			var rerr string
+			func() {
+				defer func() {
+					if p := recover(); p != nil {
+						rerr = fmt.Sprintf("panic: %v", p)
+					}
+				}()
+				buf := make([]byte, 1<<20)
+				for {
+					n, err := sf.Read(buf)
+					if err != nil {
+						if err != io.EOF {
+							rerr = err.Error()
+						}
+						break
+					}
+					got = append(got, append([]byte(nil), buf[:n]...))
+				}
+			}()
+			_ = sf.Close()
+			_ = os.Remove(sf.Path())
+			sum.Evaluations++
+			sum.hist("prefix_alignment").Inc(fmt.Sprintf("second prefix at block boundary %+d", off-boundary))
+			ok := rerr == "" && len(got) == len(msgs)
+			for i := 0; ok && i < len(msgs); i++ {
+				ok = bytes.Equal(got[i], msgs[i])
+			}
+			if !ok {
+				sum.violate(5000+off, "messages read back from a snapshot file differ from the messages written", map[string]any{"second_length_prefix_at_uncompressed_offset": off, "block_size": 65528, "messages": len(msgs)}, fmt.Sprintf("read %d of %d messages; %s", len(got), len(msgs), rerr))
+			}
+		}
+	}
 	var names []string
 	if !framingOnly {
 		names, err = cf.Write(rf.Out, "c07_cases", 8)
